@@ -77,6 +77,14 @@ var blockCores = []string{
 	"src = make(chan int64)\nout = make(chan int64, 1)\nout <- src",
 	"src = make(chan int64, 2)\nsrc <- 1\nsrc <- 2\nout = make(chan int64, 1)\nfor {\nout <- src\n}",
 	"c = make(chan int64, 1)\nc <- 1\nc <- <- c\nc <- 2",
+	// the blocked receive is the ARGUMENT of a host call (fixed, variadic, typed parameter): the call does not happen
+	"c = make(chan int64)\nprobe(<-c)\nprobe(\"after\")",
+	"c = make(chan int64)\nvprobe(\"r\", <-c)",
+	"c = make(chan int64)\ntyped(<-c)",
+	"c = make(chan int64)\nprobe2(1, <-c)\nprobe(\"after\")",
+	// spinning without a loop and without a statement list: recursion through functions whose body is one return
+	"func fib(n) {\nreturn n < 2 ? n : fib(n - 1) + fib(n - 2)\n}\nfib(60)",
+	"func even(n, r...) {\nreturn n == 0 ? true : odd(n - 1, 1)\n}\nfunc odd(n, r...) {\nreturn n == 0 ? false : even(n - 1)\n}\nfunc spin(k) {\nreturn even(2000) == spin(k + 1)\n}\nspin(0)",
 }
 
 type cancelReq struct {
